@@ -176,14 +176,16 @@ def sticky_variant(base: Dict[str, Any], flags: Dict[str, bool]) -> Dict[str, An
 
 
 def run_env_episodes(rec: RewardRecorder, cfg: Dict[str, Any], label: str, episodes: int, steps: int,
-                     rng: random.Random) -> List[Dict[str, Any]]:
-    """Seeded random defender on a scenario with exactly one proxy agent; one trace per episode."""
+                     rng: random.Random, replay: Optional[Dict[str, Any]] = None) -> List[Dict[str, Any]]:
+    """Seeded random defender on a scenario with exactly one proxy agent; one trace per episode.
+    (``replay`` = a recorded stimulus: its seeds and actions are used instead of fresh ones.)"""
     from primaite.session.environment import PrimaiteGymEnv
 
     names = [a["ref"] for a in cfg["agents"]]
     proxy = 1 + next(i for i, a in enumerate(cfg["agents"]) if a["type"] == "proxy-agent")
     out = []
-    seeds = [rng.randrange(10**6) for _ in range(episodes)]
+    seeds = list(replay["seeds"]) if replay else [rng.randrange(10**6) for _ in range(episodes)]
+    episodes = len(seeds)
     stim = {"scenario": label, "seeds": seeds, "steps": steps, "actions": []}
     env = None
     for ep in range(episodes):
@@ -200,9 +202,10 @@ def run_env_episodes(rec: RewardRecorder, cfg: Dict[str, Any], label: str, episo
         n_act = env.action_space.n
         acts = []
         stim["actions"].append(acts)
-        for _ in range(steps):
+        given = replay["actions"][ep] if replay and ep < len(replay["actions"]) else None
+        for i in range(len(given) if given is not None else steps):
             # mostly idle so that the green users' requests are answered, sometimes disruptive
-            a = 0 if rng.random() < 0.55 else rng.randrange(n_act)
+            a = given[i] if given is not None else (0 if rng.random() < 0.55 else rng.randrange(n_act))
             acts.append(a)
             try:
                 _, reward, _, _, _ = env.step(a)
@@ -256,6 +259,46 @@ def _mc(chk: common.Check, name: str, cfg: Optional[str], need: Tuple[str, ...],
         if r["coverage"].get(act, (0, 0))[1] == 0:
             raise tlc.TLCError(f"vacuous model: action {act} never taken in {name}")
     return r
+
+
+def _shipped_variant(label: str) -> Dict[str, Any]:
+    fam, _, var = label.partition("/")
+    if fam == "uc7":
+        return scenarios.shipped("uc7_config.yaml")
+    base = scenarios.shipped("data_manipulation.yaml")
+    flags = dict(STICKY_VARIANTS).get(var)
+    return sticky_variant(base, flags) if flags is not None else base
+
+
+def replay(path: str) -> int:
+    """Re-execute the stimulus of a replay file on the real code and let TLC judge it again."""
+    import json
+
+    rep = json.loads(open(path).read())
+    stim = rep["detail"]["stimulus"]
+    common.boot()
+    rec = RewardRecorder()
+    rec.install()
+    if "graph_scenario" in stim:
+        p = stim["graph_scenario"]
+        cfg = graph_scenario(p["decl"], [tuple(e) for e in p["edges"]], {o[0]: tuple(o[1:]) for o in p["own"]},
+                             {v: f for v, f in p["own_first"]})
+        traces = [run_graph_case(rec, cfg, stim["actions"], stim["env"], rep["detail"].get("meta") or {}, p)]
+    else:
+        traces = run_env_episodes(rec, _shipped_variant(stim["scenario"]), stim["scenario"], 0, stim["steps"],
+                                  random.Random(0), replay=stim)
+    res = tlc.validate("RewardTrace", traces)
+    rc = 0
+    for tr, (reached, length), stuck in zip(traces, res["results"], res["stuck"]):
+        if reached == length + 1:
+            print(f"trace {tr['meta']}: accepted ({length} events)")
+            continue
+        rc = 1
+        print(f"trace {tr['meta']}: first unexplained event at position {reached}/{length}")
+        print(f"  failing clauses: {(stuck or {}).get('fail')}")
+        print(f"  spec state before: {(stuck or {}).get('st')}")
+        print(f"  event: {tr['ev'][reached - 1] if 0 < reached <= length else None}")
+    return rc
 
 
 def main(tier: str, seed: int) -> int:
@@ -405,13 +448,15 @@ def main(tier: str, seed: int) -> int:
                     else:
                         o["nonsticky_no_event"] += 1
     chk.cov["sticky_situations"] = occ
-    for t, o in occ.items():
-        if min(o.values()) == 0:
-            raise RuntimeError(f"vacuous stimulus: sticky situations of {t}: {o}")
+    vacuous = [f"{t}: {o}" for t, o in occ.items() if min(o.values()) == 0]
 
     # 4. TLC judges every trace ----------------------------------------------------------
     res = tlc.validate("RewardTrace", traces, chunk=600)
     common.judge_traces(chk, "RewardGraph", traces, res, sig_fn)
+    if vacuous:
+        if not chk.violations:  # (with violations the missing situations may be their consequence)
+            raise RuntimeError(f"vacuous stimulus: sticky situations {vacuous}")
+        chk.notes.append(f"sticky situations not reached: {vacuous}")
     shown = 0
     for tr in traces:
         if tr["meta"].get("family") in ("gen3", "multi") and len(tr["ev"]) > 2 and shown < 2:
